@@ -39,6 +39,8 @@ SPEC['explanation'] += " T9.touch: every normal path of __setitem__ puts a link 
 SPEC['decided'] += ['assignment always refreshes recency', 'keyword source fed on every path']
 SPEC['explanation'] += ' T9.srcorder: update() does not pass a source through a re-keying / re-ordering copy (repeated keys keep refreshing recency).'
 SPEC['decided'] += ['update sources fed in their own order']
+SPEC['explanation'] += ' T8.eq: __eq__/__ne__ do not read the cache through the counted lookup.'
+SPEC['decided'] += ['comparison is a pure observer']
 MANIFEST = {
     'technique': 'paired-effect (lock-step) analysis over all CFG paths with inlined helpers; dominating-guard check with comparison canonicalisation; who-may-write counters; observer purity of copy()',
     'text': ('Decides necessary structural conditions of C02 for all paths of all methods: the three structures (dict, '
@@ -196,8 +198,9 @@ def move_to_front(ctx):
             if p.kind != 'return' or p.outcome[1] is None:
                 continue
             R = txt(w.expand(p.outcome[1]))
-            if not R.startswith('self._link_lookup['):
-                continue
+            rv = w.expand(p.outcome[1])
+            if not (isinstance(rv, ast.Subscript) and txt(rv.value) == 'self._link_lookup'):
+                continue                    # hands out a link itself (not a slot of it, as a reader built on the mover does)
             n += 1
             stored = [o for o in p.ops if o.kind == 'sub_store' and txt(o.val) == 'self._anchor[PREV]' and o.info is not None
                       and txt(w.expand(o.info)) == R]
@@ -236,6 +239,12 @@ def run(ctx):
     touch_on_set(ctx)
     kwargs_consumed(ctx)
     sources_in_order(ctx)
+    from rules.common import check_no_counted_lookup as _cncl
+    for _n in ('__eq__', '__ne__'):
+        for _c in ('cacheutils.LRI', 'cacheutils.LRU'):
+            _f = ctx.program.resolve(ctx.program.cls(_c), _n)
+            if hasattr(_f, 'node') and _f.fq.endswith('.' + _n) and _f.fq.startswith(_c):
+                _cncl(ctx, _f)
     from rules.common import check_default_returned
     for _c in ('cacheutils.LRI', 'cacheutils.LRU'):
         for _n in ('get', 'setdefault'):
